@@ -22,6 +22,10 @@ type CaseC06 struct {
 	Sizes   []int       `json:"sizes"`  // payload bytes per PMT packet
 	Others  []int       `json:"others"` // number of other-PID packets before packet i (len = len(Sizes))
 	OtherB  ref.Hex     `json:"other_pkt"`
+	// Jump: at PMT packet number Jump (>= 1, one that has an adaptation field with a flags byte) the continuity
+	// counter jumps by JumpBy and the packet announces it with the discontinuity_indicator, as ISO allows
+	Jump   int `json:"cc_jump_at,omitempty"`
+	JumpBy int `json:"cc_jump_by,omitempty"`
 }
 
 func genC06(t *rapid.T) CaseC06 {
@@ -33,6 +37,10 @@ func genC06(t *rapid.T) CaseC06 {
 		c.PID = 0x64
 	}
 	c.CC = rapid.IntRange(0, 15).Draw(t, "cc")
+	if rapid.IntRange(0, 3).Draw(t, "cc-jump") == 0 {
+		c.Jump = rapid.IntRange(1, 3).Draw(t, "cc-jump-at")
+		c.JumpBy = rapid.IntRange(2, 15).Draw(t, "cc-jump-by")
+	}
 	payload := c.Carrier.Payload(c.PMT.Section())
 	// no packet boundary exactly at the start of a section that follows complete sections
 	forbidden := map[int]bool{}
@@ -140,7 +148,21 @@ func c06Probe(what string, g psi.PmtDescriptor, d ref.Descriptor) *hx.Failure {
 
 func c06Stream(c CaseC06, pkts []*ref.Packet) []byte {
 	var stream []byte
+	jumped := 0
 	for i, p := range pkts {
+		if c.Jump > 0 && i == c.Jump && p.AF != nil && p.AF.Len >= 1 {
+			q := *p
+			af := *p.AF
+			af.Disc = true
+			q.AF = &af
+			p = &q
+			jumped = c.JumpBy
+		}
+		if jumped != 0 {
+			q := *p
+			q.CC = (p.CC + jumped) & 15
+			p = &q
+		}
 		for k := 0; k < c.Others[i]; k++ {
 			stream = append(stream, c.OtherB...)
 		}
@@ -310,7 +332,7 @@ func checkC06(c CaseC06, x *hx.Ctx) *hx.Failure {
 var propC06 = hx.Register(hx.Prop[CaseC06]{ID: "C06", Gen: genC06, Check: checkC06})
 
 func c06Rule() {
-	hx.Rec("C06").SetRule("cases: a reference-model PMT (program number, version, current_next, PCR PID, 0..3 program descriptors, 0..12 streams with distinct PIDs and 0..4 descriptors each incl. 'probe' descriptors whose body content is observable through the decoders; section_length <= 1021, sometimes exactly 1021) x a carrier (pointer_field 0..255 with 0xFF filler; values above 184 only for the payload-level API, 0..2 complete sections of other tables before, 0..200 trailing 0xFF) x a packetisation (payload sizes 1..184 per packet via adaptation-field stuffing or payload-side padding of the last packet, 0..3 other-PID packets before any packet). Oracle: the model. NewPMT(payload), ReadPMT(stream): stream list (type, PID, descriptor tags, probe values), Pids, version, current_next; PmtAccumulatorDoneFunc on every prefix (payloads <= 400 bytes) or on packet boundaries, +-3 bytes around section start/end and 48 more lengths; ExtractCRC for pointer 0; header accessors = first section. Enumerated: TableHeader encode/decode identity over all 2^20 (table_id, flags, section_length 0..1023). Non-trivial: (>= 2 packets or pointer_field > 0 or a preceding section) and >= 1 stream with >= 1 descriptor.",
+	hx.Rec("C06").SetRule("cases: a reference-model PMT (program number, version, current_next, PCR PID, 0..3 program descriptors, 0..12 streams with distinct PIDs and 0..4 descriptors each incl. 'probe' descriptors whose body content is observable through the decoders; section_length <= 1021, sometimes exactly 1021) x a carrier (pointer_field 0..255 with 0xFF filler; values above 184 only for the payload-level API, 0..2 complete sections of other tables before, 0..200 trailing 0xFF) x a packetisation (payload sizes 1..184 per packet via adaptation-field stuffing or payload-side padding of the last packet, 0..3 other-PID packets before any packet; one case in four has a continuity_counter jump announced by the discontinuity_indicator at a continuation packet). Oracle: the model. NewPMT(payload), ReadPMT(stream): stream list (type, PID, descriptor tags, probe values), Pids, version, current_next; PmtAccumulatorDoneFunc on every prefix (payloads <= 400 bytes) or on packet boundaries, +-3 bytes around section start/end and 48 more lengths; ExtractCRC for pointer 0; header accessors = first section. Enumerated: TableHeader encode/decode identity over all 2^20 (table_id, flags, section_length 0..1023). Non-trivial: (>= 2 packets or pointer_field > 0 or a preceding section) and >= 1 stream with >= 1 descriptor.",
 		"prefixes ending exactly at an inner section boundary are not asserted for the completion predicate (both clauses of the statement apply there)",
 		"ReadPMT is asserted for PMTs with >= 1 stream, streams whose first PMT-PID packet is the unit start, and packetisations without a packet boundary exactly at the start of a section that follows complete sections (ISO requires a new unit start there)",
 		"exactly one table_id 0x02 section per payload ('other complete sections before it' is read as sections of other tables: with two program map sections in one payload the statement does not say which one is meant); distinct elementary PIDs")
